@@ -552,6 +552,14 @@ static ASTNode *load_module_internal(const char *module_path, Environment *env, 
             return cached_ast;
         }
         
+        /* An entry without an AST is a module whose loading has started but not
+         * finished: we are inside its own import chain, i.e. the import is circular.
+         * (Without this test the loader recursed until the stack overflowed.) */
+        if (is_module_cached(module_path)) {
+            fprintf(stderr, "Error: Circular import detected: module '%s' is imported again while it is still being loaded\n", module_path);
+            return NULL;
+        }
+        
         /* Mark module as loading to prevent circular imports */
         cache_module(module_path);
     }
@@ -878,9 +886,10 @@ bool process_imports(ASTNode *program, Environment *env, ModuleList *modules, co
                 module_ast = load_module_internal(module_path, env, true, modules);
             }
             
-            /* NULL return means module was already loaded - this is OK */
-            if (module_ast == NULL && !is_module_cached(module_path)) {
-                /* Only error if module wasn't cached (i.e., actual failure) */
+            /* An already loaded module comes back as its cached AST, so NULL always means
+             * that loading failed (the module is in the cache from the moment loading
+             * starts, so the cache cannot be used to tell the two apart). */
+            if (module_ast == NULL) {
                 fprintf(stderr, "Error at line %d, column %d: Failed to load module '%s'\n",
                         item->line, item->column, module_path);
                 free(module_path);
